@@ -149,8 +149,34 @@ def standin(rep):
         ob = core.Ob('C10/bounded.calibrate-then-quantize/never-fails-for-missing-statistics', None, 'bounded-native', core.REFUTED, 0.0, detail=str(first), clause='calibrate() followed by quantize() with its result never fails for missing statistics')
         ob.replay = dict(confirmed=True, inputs=first); rep.add(ob)
 
+def signature_index_obligations(rep):
+    """get_signature_main_subgraph_index must return the subgraph that the signature's runner executes (the interpreter's own
+    binding, flatbuffer signatureDefs[k].subgraphIndex), not the position of the key in any list"""
+    fn = rep.fn(core.Fn('utils/tfl_interpreter_utils.py', 'get_signature_main_subgraph_index')); U = ast.unparse
+    body = [s_ for s_ in fn.node.body if not (isinstance(s_, ast.Expr) and isinstance(s_.value, ast.Constant))]
+    ok = len(body) == 2 and U(body[0]) == 'signature_runner = tflite_interpreter.get_signature_runner(signature_key)' and U(body[1]) == 'return signature_runner._subgraph_index'
+    ob = core.Ob(f'C10/{fn.name}/returns-the-subgraph-bound-to-the-signature-runner', fn, 'ast-dataflow', core.PROVED if ok else core.REFUTED, 0.0, detail=str([U(b) for b in body]),
+                 clause='result == subgraph index the interpreter binds to signature_key (signatureDefs[k].subgraphIndex)')
+    # native check on a model whose signature order differs from its subgraph order (the two coincide on every shipped fixture)
+    try:
+        import absl.logging; absl.logging.set_verbosity('error')
+        from ai_edge_quantizer.utils import tfl_interpreter_utils as tiu, tfl_flatbuffer_utils as tfu
+        from tensorflow.lite.tools import flatbuffer_utils as fu
+        m = tfu.read_model(os.path.join(core.PKG, 'tests/models/two_signatures.tflite')); m.signatureDefs = list(reversed(m.signatureDefs))
+        want = {sd.signatureKey.decode(): sd.subgraphIndex for sd in m.signatureDefs}
+        itp = tiu.create_tfl_interpreter(bytes(fu.convert_object_to_bytearray(m)))
+        got = {k: tiu.get_signature_main_subgraph_index(itp, k) for k in itp.get_signature_list()}
+        if got != want:
+            ob.status = core.REFUTED; ob.replay = dict(confirmed=True, inputs='tests/models/two_signatures.tflite with signatureDefs reversed', observed=dict(returned=got, flatbuffer=want))
+        elif not ok: ob.replay = dict(confirmed=False, note='the function text changed; the native check on the reversed-signature model still agrees')
+        rep.add_bounded('get_signature_main_subgraph_index vs flatbuffer signatureDefs[k].subgraphIndex', 'two_signatures.tflite with signatureDefs reversed, every signature key', len(want), 0 if got == want else 1)
+    except Exception as e:
+        rep.notes.append(f'signature-index native check could not run: {type(e).__name__}: {e}')
+    return [ob]
+
 def run(rep):
     standin(rep)
+    rep.extend(signature_index_obligations(rep))
     for rel, qual in (('calibrator.py', 'Calibrator._get_op_scope'), ('params_generator.py', 'ParamsGenerator._get_op_scope')):
         pyvc.verify(rep, 'C10', core.Fn(rel, qual), scope.OpScope(), replay=replay_scope, fallback=search_scope)
     rep.extend(callsite_obligations(rep))
